@@ -1272,6 +1272,9 @@ func posSuffix(p *Pkg, err error) string {
 	if u, ok := err.(*undecided); ok && u.pos.IsValid() {
 		return " at " + p.posAt(u.pos)
 	}
+	if se, ok := err.(*semitErr); ok && se.at != nil {
+		return " at " + p.pos(se.at)
+	}
 	return ""
 }
 
